@@ -1491,6 +1491,45 @@ def restore_renamed_locals(fn, ref_shapes, known_locals, ref_flat=None):
     fresh = {u: tuple(sh) for u, sh in cur.items()
              if u not in known_locals and u not in params}
     done = False
+    # a parameter that the reference re-binds (`x = tf.constant(x, ...)`) and
+    # the function no longer does: the new local with the same definition
+    # shapes is the re-bound parameter, when the parameter itself is not read
+    # after that local is defined
+    for l, sh in sorted(ref_shapes.items()):
+      if l not in params or l in cur:
+        continue
+      sh = tuple(sh)
+      cands = [u for u, s2 in fresh.items() if s2 == sh]
+      rivals = [l2 for l2, s2 in ref_shapes.items()
+                if tuple(s2) == sh and l2 in params and l2 not in cur]
+      if len(cands) != 1 or len(rivals) != 1:
+        continue
+      u = cands[0]
+      stores = [n for n in ast.walk(fn) if isinstance(n, ast.Name) and
+                n.id == u and isinstance(n.ctx, (ast.Store, ast.Del))]
+      if len(stores) != len(sh):
+        continue
+      first = min((n.lineno, n.col_offset) for n in stores)
+      # the defining statement may read the parameter; nothing after it may
+      def_stmt_end = None
+      for st in ast.walk(fn):
+        if isinstance(st, ast.Assign) and any(t is stores[0] or any(
+            y is stores[0] for y in ast.walk(t)) for t in st.targets):
+          def_stmt_end = (getattr(st, 'end_lineno', st.lineno),
+                          getattr(st, 'end_col_offset', 10**6))
+      if def_stmt_end is None:
+        continue
+      late = [n for n in ast.walk(fn) if isinstance(n, ast.Name) and
+              n.id == l and (n.lineno, n.col_offset) > def_stmt_end]
+      if late:
+        continue
+      for n in ast.walk(fn):
+        if isinstance(n, ast.Name) and n.id == u:
+          n.id = l
+      done = True
+      break
+    if done:
+      continue
     for l, sh in sorted(vanished.items()):
       cands = [u for u, s2 in fresh.items() if s2 == sh]
       rivals = [l2 for l2, s2 in vanished.items() if s2 == sh]
